@@ -13,8 +13,8 @@ MUST_NOT_RAISE = True
 TIE_MODE = CP.TIE_MODE
 TIE_STABLE_FUNCS = CP.TIE_STABLE_FUNCS
 SORT_SKIP_FUNCS = CP.SORT_SKIP_FUNCS
-STUBS = CP.STUBS + ["networkx.dag_longest_path replaced by 'some source->sink path' (any path may be the critical one for "
-                    "this property)"]
+STUBS = CP.STUBS + ["networkx.dag_longest_path: real for structures I, A, E; replaced by 'some source->sink path' for the "
+                    "larger ones (any path may be the critical one for this property)"]
 ASSUMPTIONS = CP.ASSUMPTIONS + ["byte-level .json/.json.gz encoding, update_trace_rank and create_rank_to_trace_dict are "
                                 "I/O + regular expressions over file lines: outside the symbolic claim (DESIGN §6 C20)"]
 BUDGET_S = {"quick": 420, "thorough": 3000}
@@ -66,7 +66,8 @@ def same(a, b):
 
 def run(ctx):
     P = ctx.params
-    R = CP.run_analysis(ctx, CP.STRUCTS[ctx.sk["struct"]], "", None, P["zero"], False, "all", real_longest_path=False)
+    R = CP.run_analysis(ctx, CP.STRUCTS[ctx.sk["struct"]], "", None, P["zero"], False, "all",
+                        real_longest_path=ctx.sk["struct"] in ("I", "A", "E"))
     res = R["res"]
     ctx.prove(res is not None and res[1] is True, "analysis-succeeds", None)
     if res is None or res[1] is not True:
